@@ -904,7 +904,10 @@ fn dump_crate<'tcx>(tcx: TyCtxt<'tcx>) -> J {
                             let mut id = String::new();
                             if let Some(a0) = args.get(0) {
                                 if let Operand::Constant(c) = &a0.node {
-                                    id = format!("{:?}", c.const_);
+                                    id = format!("{}", c);
+                                    if let Some(r) = id.strip_prefix("const \"") {
+                                        id = r.trim_end_matches('"').to_string();
+                                    }
                                 }
                             }
                             let mut f: Vec<(&str, J)> = vec![
